@@ -63,5 +63,13 @@ Definition entry_C20 (sub : Z) (a : sx) : sx :=
       do sts <- get_LLLQc sts; do als <- get_LLQc als; do cs <- get_LQc cs; do vd <- get_LLQc vd; do vy <- get_LQc vy;
       do raw2 <- get_LQc raw2; do tol <- get_Qc tol;
       Some (opticom_out (map2 (fun st al => predict_nonuniform st al vd) sts als) cs vy raw2 tol))
+  (* Opticom option 1 (Garcke), standard variant: (levelvectors surpluses validation_points lambda_opticom raw1 tol)
+     -> (matrix vector certified(0/1, 2 = not requested) normalised raw1) *)
+  | 10, Lv [lvs; als; vd; lam; raw1; tol] => ret (
+      do lvs <- get_LLZ lvs; do als <- get_LLQc als; do vd <- get_LLQc vd; do lam <- get_Qc lam;
+      do raw1 <- get_LQc raw1; do tol <- get_Qc tol;
+      let M := garcke_matrix (combine lvs als) vd lam in
+      Some (Lv [ of_LLQc M; of_LQc (garcke_vector M);
+                 match raw1 with [] => Zv 2 | _ => sx_bool (opticom1_certified M raw1 tol) end ]))
   | _, _ => sx_err 0
   end.
